@@ -771,6 +771,7 @@ def run_wrap(ctx, fam):
     for i, ops in enumerate(walks):
         kind = KINDS[i % len(KINDS)]
         scripts.append(wrap_ops_to_script('wrap-walk-%d-%d' % (ctx.seed, i), ops, kind, i % 3 != 0, ['tlc-walk']))
+        scripts[-1]['cfg']['reuse'] = i % 2 == 0      # one Block handed to every Parse call
     scripts += vlib.go_gen(ctx, 'wrap', 2400 if t else 400, ctx.seed)
     scripts += vlib.go_gen(ctx, 'wrap-default', 50 if t else 10, ctx.seed)
     scripts += corpus_scripts('wrap')
@@ -986,6 +987,7 @@ def generic_history(kind, d1, idx, rng):
     wcfg['src'] = data
     wcfg['rcalls'] = [[3, ''], [1, ''], [5, 'reader'], [0, 'reader2'], [B + 1, '']] + [[rng.randint(1, 9), ''] for _ in range(6)]
     wcfg['eofwith'] = rng.random() < 0.5
+    wcfg['reuse'] = rng.random() < 0.5
     ws = dict(tid='c16-wrap-%d' % idx, comp='wrap', cfg=wcfg,
               ops=[dict(op='wpump', seed=rng.randrange(1 << 30), pntl=30, pnil=10)], tags=['grid', kind])
     return ps, ws
@@ -1200,6 +1202,8 @@ def run_suffix(ctx, fam):
         for i, o in enumerate(ops):
             o['src'] = 'lib' if i % 2 == 0 else 'naive'
             o['permute'] = (i // 2) % 2 == 1
+            o['shared'] = (i // 4) % 3 == 0      # both tables carved out of one array
+            o['nested'] = (i // 4) % 3 == 1      # the consumer calls Segments itself
         scripts += chunk_suffix(ops, 'segments-enum', 400, ['tlc-enum'])
         scripts += vlib.go_gen(ctx, 'segments', 500 if t else 70, ctx.seed)
     scripts += corpus_scripts('suffix')
@@ -1231,7 +1235,7 @@ PROPS = {
         dict(run=run_config, trace_module='Config_Trace', assumptions=CONFIG_ASSUME,
              rule='NewParser succeeds exactly when Verify accepts the defaults-completed configuration (rule C16.new_iff_verify) and never panics, on the TLC-enumerated boundary grid and seeded extreme values')]),
     'C13': dict(run=run_tworun, trace_module='TwoRun_Trace', assumptions=TWORUN_ASSUME, race=16,
-                gens=[('tworun-reset', 280), ('tworun-conc', 14)],
+                gens=[('tworun-reset', 280), ('tworun-wreset', 70), ('tworun-adjacent', 70), ('tworun-conc', 14)],
                 rule='multi-run traces judged by TwoRun.tla: (reset) a parser with a history (fills, shrinks, matches; related data so that stale dictionary entries would match) is Reset with nil or with data and then receives the same calls as a fresh parser that got the same Reset - every compared call must return the same n, error and block; (det) two fresh parsers, same calls; (conc) one sequential reference run and 8 identical runs on distinct instances executed concurrently next to busy parsers and decoders, a subset under the Go race detector; all seven parsers; non-trivial = distinct script whose compared part contains a match'),
     'C08': dict(run=run_multi, trace_module=None, parts=[
         dict(run=run_tworun, trace_module='TwoRun_Trace', assumptions=TWORUN_ASSUME, gens=[('tworun-chunk', 210)],
